@@ -234,14 +234,12 @@ fn manifest_yaml_ex_buf(
 					}
 					_ => buf.push(' '),
 				}
-				let extra_padding = match &item {
-					Val::Arr(a) => !a.is_empty(),
-					Val::Obj(o) => !o.is_empty(),
-					_ => false,
-				};
 				let prev_len = cur_padding.len();
-				if extra_padding {
-					cur_padding.push_str(&options.padding);
+				match &item {
+					Val::Arr(a) if !a.is_empty() => cur_padding.push_str(&options.padding),
+					// First field follows "- " on the same line, the rest should be aligned with it
+					Val::Obj(o) if !o.is_empty() => cur_padding.push_str("  "),
+					_ => {}
 				}
 				in_description_frame(
 					|| format!("elem <{i}> manifestification"),
